@@ -86,6 +86,9 @@ theorem handler_partition (cfg : Sim.Cfg K) (wf : WfCfg cfg.comp) (inst ncomp : 
     | addEdge _ _ _ => simp [targetsB, C01.shippedB] at ha
     | rmEdge _ _ _ => simp [targetsB, C01.shippedB] at ha
     | adAdd _ _ _ => simp [targetsB, C01.shippedB] at ha
+    | vaccinate => simp [targetsB, C01.shippedB] at ha
+    | sivrInfect _ _ _ _ _ _ => simp [targetsB, C01.shippedB] at ha
+    | plainLeave _ => simp [targetsB, C01.shippedB] at ha
     | adDel _ _ => simp [targetsB, C01.shippedB] at ha
 
 /-! ### arrows: what a fired event changes -/
@@ -208,5 +211,48 @@ theorem zero_total_rate (rs : List (Nat × Rat × Nat)) (sizes : Nat → Nat) (h
       · grind
       · exact_mod_cast h1
     · exact ih (fun r hr => hp r (List.mem_cons_of_mem _ hr)) hs0 r hr hpos
+
+/-! ### vaccination (SIvR.infect) -/
+
+theorem popF_w (u u' : Sim.U K) (r : K) (h : Sim.popF u = some (r, u')) : u'.w = u.w ∧ u'.vacc = u.vacc := by
+  unfold Sim.popF at h; split at h
+  · simp only [Option.some.injEq, Prod.mk.injEq] at h; rw [← h.2]; exact ⟨rfl, rfl⟩
+  · simp at h
+
+/-- **a vaccine of efficacy 1 that has taken effect prevents infection**: when the node is vaccinated, the offset has passed and
+    the random number drawn does not exceed the efficacy (always the case for efficacy 1, random numbers being below 1), the
+    infection event leaves every compartment and every locus as it was -/
+theorem vaccine_holds (cfg : Sim.Cfg K) (inst c : Nat) (offset eff : K) (locN locV : Nat) (t : K) (e : Elem) (s : St K (Sim.U K) Elem)
+    (tv r : K) (u' : Sim.U K) (hv : s.u.vacc.lookup e.1 = some tv) (hoff : Arith.add tv offset < t)
+    (hr : Sim.popF s.u = some (r, u')) (hle : ¬ eff < r) :
+    (exec (Sim.runActs cfg [.sivrInfect inst c offset eff locN locV] t e) s).u.w = s.u.w := by
+  simp only [Sim.runActs, exec, hv, hoff, if_true, hr, hle, if_false]
+  exact (popF_w s.u u' r hr).1
+
+/-- **a vaccine of efficacy 0 changes nothing**: when the random number drawn exceeds the efficacy (always the case for
+    efficacy 0, random numbers being positive) the vaccinated node is infected exactly as an unvaccinated one would be —
+    same compartment change and same loci — except that it is listed in the infected-vaccinated marker locus -/
+theorem vaccine_void (cfg : Sim.Cfg K) (inst c : Nat) (offset eff : K) (locN locV : Nat) (t : K) (e : Elem) (s : St K (Sim.U K) Elem)
+    (tv r : K) (u' : Sim.U K) (hv : s.u.vacc.lookup e.1 = some tv) (hoff : Arith.add tv offset < t)
+    (hr : Sim.popF s.u = some (r, u')) (hlt : eff < r) :
+    (exec (Sim.runActs cfg [.sivrInfect inst c offset eff locN locV] t e) s).u.w =
+      updLocus (changeCompartment cfg.comp s.u.w inst e.1 c) locV (·.add (eN e.1)) := by
+  simp only [Sim.runActs, exec, hv, hoff, if_true, hr, hlt]
+  rw [C01.markHit_w, C01.markOccupied_w, (popF_w s.u u' r hr).1]
+
+/-- an unvaccinated node, or one whose vaccine has not yet taken effect, is infected as in plain SIR -/
+theorem unvaccinated_as_sir (cfg : Sim.Cfg K) (inst c : Nat) (offset eff : K) (locN locV : Nat) (t : K) (e : Elem) (s : St K (Sim.U K) Elem)
+    (h : s.u.vacc.lookup e.1 = none ∨ ∃ tv, s.u.vacc.lookup e.1 = some tv ∧ ¬ Arith.add tv offset < t) :
+    (exec (Sim.runActs cfg [.sivrInfect inst c offset eff locN locV] t e) s).u.w =
+      updLocus (changeCompartment cfg.comp s.u.w inst e.1 c) locN (·.add (eN e.1)) := by
+  rcases h with h | ⟨tv, h, hn⟩
+  · simp only [Sim.runActs, exec, h]; rw [C01.markHit_w, C01.markOccupied_w]
+  · simp only [Sim.runActs, exec, h, hn, if_false]; rw [C01.markHit_w, C01.markOccupied_w]
+
+/-- vaccination touches neither compartments nor loci nor the network -/
+theorem vaccinate_passive (cfg : Sim.Cfg K) (t : K) (e : Elem) (s : St K (Sim.U K) Elem) :
+    (exec (Sim.runActs cfg [.vaccinate] t e) s).u.w = s.u.w ∧
+    (exec (Sim.runActs cfg [.vaccinate] t e) s).u.vacc.lookup e.1 = some t := by
+  simp [Sim.runActs, exec, List.lookup]
 
 end C07
